@@ -143,7 +143,7 @@ func c20Constructors(c *mon.Ctx, r *mon.Rand) {
 					if i == 0 {
 						ok = feq(b[0], start)
 					} else {
-						ok = feq(b[i], b[i-1]*factor) || feq(b[i], start*math.Pow(factor, float64(i)))
+						ok = feq(b[i], b[i-1]*factor) // the stated recurrence: previous times factor (the library evaluates it this way; only the linear constructors use a closed form)
 					}
 					if !ok {
 						c.Violation("constructor-recurrence", args+fmt.Sprintf(": element %d = %v, previous %v", i, b[i], prevF(b, i)))
@@ -184,7 +184,7 @@ func c20Constructors(c *mon.Ctx, r *mon.Rand) {
 					if i == 0 {
 						ok = b[0] == start
 					} else {
-						ok = b[i] == time.Duration(float64(b[i-1])*factor) || b[i] == time.Duration(float64(start)*math.Pow(factor, float64(i)))
+						ok = b[i] == time.Duration(float64(b[i-1])*factor)
 					}
 					if !ok {
 						c.Violation("constructor-recurrence", args+fmt.Sprintf(": element %d = %d", i, b[i]))
